@@ -35,6 +35,15 @@ fn main() {
                 i += 1;
                 cases = Some(args[i].parse().expect("cases"));
             }
+            "--dump-fixed" => {
+                let root = PathBuf::from(std::env::var("VERIF_ROOT").unwrap_or_else(|_| "/verif".into()));
+                for p in lolv::props::all() {
+                    if id == "all" || p.id() == id {
+                        lolv::engine::dump_fixed_cases(p.as_ref(), &root);
+                    }
+                }
+                return;
+            }
             "--threads" => {
                 i += 1;
                 threads = args[i].parse().expect("threads");
